@@ -10,13 +10,16 @@ class GaussWF:
     Closed-form value, gradient, Laplacian and ratios; keeps its own coordinate copy like the real classes."""
 
     def __init__(self, alpha=0.7, beta=0.0, kvec=None, center=0.0):
-        self.alpha = alpha
+        self.parameters = {"alpha": np.array([float(alpha)])}
         self.beta = beta
         self.kvec = None if kvec is None else np.asarray(kvec, dtype=float)
         self.center = center
         self.dtype = complex if kvec is not None else float
-        self.parameters = {}
         self.nupdates = 0
+
+    @property
+    def alpha(self):
+        return float(np.asarray(self.parameters["alpha"]).ravel()[0])
 
     def _psi1(self, r):
         # r (..., 3)
@@ -76,7 +79,8 @@ class GaussWF:
         self.nupdates += 1
 
     def pgradient(self):
-        return {}
+        d = self.c - self.center
+        return {"alpha": (-0.5 * np.sum(d * d, axis=(1, 2)))[:, np.newaxis]}
 
 
 CURRENT_TASK = [0]
